@@ -340,7 +340,7 @@ def correspondence(chk, tier):
                 near_total += moved
                 return moved
 
-            def hfull(m, angs=angs, meta=meta, r=r, npairs=npairs):
+            def hfull(m, angs=angs, meta=meta, r=r, npairs=npairs, s=s):
                 if r[0] == "ERR" or m[0] == "ERR":
                     if not (r[0] == m[0] and r[1] == m[1]):
                         bad.append((dict(meta, what="full path"), f"implementation {r} vs model {m if m[0] == 'ERR' else 'OK'}"))
@@ -348,7 +348,14 @@ def correspondence(chk, tier):
                 moved = check_angles(m[1][1:], angs, meta, npairs)
                 if moved is None:
                     return
-                tol = moved / npairs + 1e-9
+                # |M - M'| <= 1/2 sum_i |h_i - h'_i| (bin width 1): the exact effect of the pairs whose bin
+                # changed, with np.histogram's normalisation by the number of IN-RANGE angles (angles above
+                # theta_max occur because of the recorded quat_product finding and are dropped by the histogram,
+                # so one moved pair weighs 1/n_in_range, not 1/npairs)
+                tmax = st._max_misorientation(s)
+                h_model, _ = np.histogram(np.array(m[1][1:]), bins=tmax, range=(0, tmax), density=True)
+                h_impl, _ = np.histogram(np.array(angs, dtype=float), bins=tmax, range=(0, tmax), density=True)
+                tol = 0.5 * float(np.abs(h_model - h_impl).sum()) + 1e-9
                 if abs(float(r[1]) - m[1][0]) > tol:
                     bad.append((dict(meta, what="full path"), f"implementation {float(r[1])!r} vs model {m[1][0]!r} (tolerance {tol:.2e})"))
             B.add("mindex_full", [variant, k, n], flat(q), hfull)
